@@ -1,8 +1,142 @@
 /-
-  C18 — property theorems (see DESIGN.md §6 C18).  Helper lemmas live in Proofs/.
+  C18 — property theorems (see DESIGN.md §6 C18).  Helper lemmas live in Proofs/Stepper.lean.
+
+  "Installing a debugger stepper does not change what programs compute.  With a Stepper callback
+  installed, whatever sequence of commands (no-op, next, step in, step out) it returns, every program
+  that terminates within the host stack yields the same result or error and the same ordered side
+  effects as without a stepper.  The callback is only ever handed forms together with the scope they
+  are about to be evaluated in."
+
+  Observables (`Stepper.Obs`): scope store, atoms, `trace!` effects in order, number of polls of
+  `ctx.Done()` (`ticks`) and the cancellation oracle.  NOT compared, by design: the `stepper` field
+  itself and the `depth!` marks (with a stepper the loop does not `continue` but calls `EVAL`
+  recursively, so EVAL-frame depths differ).
 -/
 import LispModel.Eval
+import LispModel.Proofs.Stepper
 namespace LispModel.Props.C18
-open LispModel
+open LispModel LispModel.Stepper
+
+/-- C18, main clause.  A run of `EVAL` from a state with ANY stepper (any script of commands, any
+    values of the three flags) at any depth `d`, which terminates within fuel `F` with result or
+    error `r`, is reproduced by the run without a stepper (`erase st`) at any depth `d'` with the
+    same fuel (and any larger one): same `r`, same observables, and still no stepper. -/
+theorem stepper_transparent (F F' : Nat) (st : State) (env : Nat) (ast : Val) (d d' : Nat)
+    (r : Res Val) (st' : State)
+    (h : eval F st env ast d = (r, st')) (hr : r ≠ .oof) (hF : F ≤ F') :
+    ∃ st'', eval F' (erase st) env ast d' = (r, st'') ∧ st''.stepper = none ∧ Obs st' st'' :=
+  let ⟨t', e, k⟩ := eval_sim (Sim.erase st) (FuelOK.of_le hF) env ast d d' h hr
+  ⟨t', e, k.nostep rfl, k.obs⟩
+
+/-- C18, converse (a stepper loses no result, given stack): a run of `EVAL` without a stepper which
+    terminates within fuel `F` is reproduced by the run from the same state with ANY stepper `x`
+    installed, at any depth, with twice the fuel (with a stepper the loop does not `continue` but
+    calls `EVAL`, one more activation per iteration): same result or error, same observables. -/
+theorem stepper_preserves_termination (F F' : Nat) (st : State) (x : Option Stepper) (env : Nat) (ast : Val)
+    (d d' : Nat) (r : Res Val) (st' : State)
+    (h : eval F (erase st) env ast d = (r, st')) (hr : r ≠ .oof) (hF : 2 * F ≤ F') :
+    ∃ st'', eval F' { st with stepper := x } env ast d' = (r, st'') ∧ Obs st' st'' :=
+  let ⟨t', e, k⟩ := eval_sim (c := false) (s := erase st) (t := { st with stepper := x })
+    (Sim.ofObs₂ ⟨rfl, rfl, rfl, rfl, rfl⟩) (FuelOK.of_two_mul_le hF) env ast d d' h hr
+  ⟨t', e, k.obs⟩
+
+/-- C18 for every function of the evaluator (`EVAL`, its loop, `eval_ast`, `do`, `let` bindings,
+    `macroexpand`, `Apply`, `map`, `update`, `update-in`, the builtins): the fields of `Stepper.IH c F`
+    say, function by function, what the two theorems above say for `eval`: for any two states with
+    the same observables, a terminated run from the first is reproduced from the second — with the
+    same fuel when the second has no stepper (`c = true`), with twice the fuel in general
+    (`c = false`). -/
+theorem stepper_transparent_block (c : Bool) (F : Nat) : Stepper.IH c F := ih_all c F
+
+/-- C18 for `types.Apply` (how builtins and the host call closures), spelled out. -/
+theorem stepper_transparent_apply (F F' : Nat) (st : State) (f : Val) (args : List Val) (d d' : Nat)
+    (hr : (apply F st f args d).1 ≠ .oof) (hF : F ≤ F') :
+    (apply F' (erase st) f args d').1 = (apply F st f args d).1
+      ∧ (apply F' (erase st) f args d').2.stepper = none
+      ∧ Obs (apply F st f args d).2 (apply F' (erase st) f args d').2 :=
+  let ⟨e, k⟩ := (ih_all true F).apply st (erase st) f args d d' F' (Sim.erase st) (FuelOK.of_le hF) hr
+  ⟨e, k.nostep rfl, k.obs⟩
+
+/-- C18, "whatever sequence of commands it returns": for any two steppers (scripts and flag
+    settings; or none) installed in the same state, at any depths and fuels, two terminated runs
+    have the same result or error, the same effects in the same order and the same stores. -/
+theorem flags_do_not_influence_result (st : State) (x₁ x₂ : Option Stepper) (F₁ F₂ : Nat)
+    (env : Nat) (ast : Val) (d₁ d₂ : Nat) (r₁ r₂ : Res Val) (s₁ s₂ : State)
+    (h₁ : eval F₁ { st with stepper := x₁ } env ast d₁ = (r₁, s₁)) (hr₁ : r₁ ≠ .oof)
+    (h₂ : eval F₂ { st with stepper := x₂ } env ast d₂ = (r₂, s₂)) (hr₂ : r₂ ≠ .oof) :
+    r₁ = r₂ ∧ s₁.trace = s₂.trace ∧ s₁.scopes = s₂.scopes ∧ s₁.atoms = s₂.atoms ∧ s₁.ticks = s₂.ticks :=
+  let ⟨e, o⟩ := eval_agree (s₁ := { st with stepper := x₁ }) (s₂ := { st with stepper := x₂ })
+    ⟨rfl, rfl, rfl, rfl, rfl⟩ env ast d₁ d₂ h₁ hr₁ h₂ hr₂
+  ⟨e, o.2.2.1, o.1, o.2.1, o.2.2.2.1⟩
+
+/-- C18, last clause: "the callback is only ever handed forms together with the scope they are about
+    to be evaluated in".  The model logs the forms handed to the callback in `Stepper.calls` (most
+    recent first).  For a run of `EVAL` on `ast` from a state whose stepper is `sp`: there still is a
+    stepper afterwards and its log is the old log, then `ast` itself exactly when the callback was
+    due (`skip` false) — handed over before the loop starts on `ast` in `env` —, then the forms
+    logged by nested `EVAL` activations (each by this same rule). -/
+theorem callback_sees_entry_pairs (F : Nat) (st : State) (env : Nat) (ast : Val) (d : Nat) (sp : Stepper)
+    (h : st.stepper = some sp) :
+    ∃ sp' new, (eval (F + 1) st env ast d).2.stepper = some sp'
+      ∧ sp'.calls = new ++ (if sp.skip then sp.calls else ast :: sp.calls) :=
+  eval_calls F st env ast d sp h
+
+/-- …and nothing else writes the log: every function of the evaluator, at every fuel, keeps the
+    stepper installed and only extends its log (`Stepper.Ext`; field by field in `Stepper.IHc`). -/
+theorem callback_log_only_grows (F : Nat) : Stepper.IHc F := ihc_all F
+
+/-- The callback is invoked by `EVAL` only, on entry: with a stepper, `EVAL` is `prologue` (which is
+    the only writer of the log, and logs `ast`), the loop on the same `ast` and `env`, and the
+    deferred flag resets. -/
+theorem callback_only_in_prologue (F : Nat) (st : State) (env : Nat) (ast : Val) (d : Nat) (sp : Stepper)
+    (h : st.stepper = some sp) :
+    eval (F + 1) st env ast d =
+      ((evalLoop F { st with stepper := some (prologue sp ast).1 } env ast d).1,
+       epilogue (prologue sp ast).1.outing2 (prologue sp ast).2
+         (evalLoop F { st with stepper := some (prologue sp ast).1 } env ast d).2)
+    ∧ (prologue sp ast).1.calls = (if sp.skip then sp.calls else ast :: sp.calls) :=
+  ⟨eval_some F st env ast d sp h, prologue_calls sp ast⟩
+
+/-! ### non-vacuity: a closure, `try`/`catch`/`throw`, `let`, on `initState`, kernel-evaluated -/
+
+private def sy (s : String) : Val := .sym s none
+private def ls (xs : List Val) : Val := .list xs none
+
+/-- `(do (def f (fn [x] (do (trace! x) (+ x 1))))
+        (trace! (f 1))
+        (try (do (trace! 10) (throw 5) (trace! 11)) (catch e (trace! (+ e 100))))
+        (let [y (f 20)] (trace! y)))` -/
+private def prog : Val :=
+  ls [sy "do",
+    ls [sy "def", sy "f", ls [sy "fn", .vec [sy "x"] none,
+      ls [sy "do", ls [sy "trace!", sy "x"], ls [sy "+", sy "x", .int 1]]]],
+    ls [sy "trace!", ls [sy "f", .int 1]],
+    ls [sy "try", ls [sy "do", ls [sy "trace!", .int 10], ls [sy "throw", .int 5], ls [sy "trace!", .int 11]],
+      ls [sy "catch", sy "e", ls [sy "trace!", ls [sy "+", sy "e", .int 100]]]],
+    ls [sy "let", .vec [sy "y", ls [sy "f", .int 20]] none, ls [sy "trace!", sy "y"]]]
+
+/-- result, `trace!` effects (most recent first) and number of polls of a run, as integers -/
+private def outInt (p : R) : Option Int × List (Option Int) × Nat :=
+  (match p.1 with | .ok (.int i) => some i | _ => none,
+   p.2.trace.map (fun v => match v with | .int i => some i | _ => none), p.2.ticks)
+
+private def withScript (script : List Cmd) : State := { initState with stepper := some { script := script } }
+
+private def nCalls (p : R) : Nat := match p.2.stepper with | some sp => sp.calls.length | none => 0
+
+/-- without a stepper: 21, effects 1 2 10 105 20 21 -/
+example : outInt (eval 40 initState 0 prog 0)
+    = (some 21, [some 21, some 20, some 105, some 10, some 2, some 1], 47) := by decide +kernel
+
+/-- the script of the property text -/
+example : outInt (eval 40 (withScript [.next, .stepIn, .stepOut, .noop, .next]) 0 prog 0)
+    = outInt (eval 40 initState 0 prog 0) := by decide +kernel
+
+/-- a script that keeps stepping in and out (the callback really runs: it is handed 33 forms) -/
+example : outInt (eval 60 (withScript [.stepIn, .stepIn, .stepIn, .stepOut, .stepIn, .stepIn, .stepIn,
+      .stepIn, .stepIn, .stepIn, .next]) 0 prog 0)
+    = outInt (eval 40 initState 0 prog 0) := by decide +kernel
+example : nCalls (eval 60 (withScript [.stepIn, .stepIn, .stepIn, .stepOut, .stepIn, .stepIn, .stepIn,
+      .stepIn, .stepIn, .stepIn, .next]) 0 prog 0) = 33 := by decide +kernel
 
 end LispModel.Props.C18
